@@ -154,6 +154,13 @@ Fixpoint chunks (k : nat) (n : nat) (l : list N) : list (list N) :=
   | S n' => firstn k l :: chunks k n' (skipn k l)
   end.
 
+Fixpoint list_eqb (a b : list N) : bool :=
+  match a, b with
+  | [], [] => true
+  | x :: a', y :: b' => (x =? y) && list_eqb a' b'
+  | _, _ => false
+  end.
+
 (* ------------------------------------------------------------------ *)
 (* Ipv4Addr: Display and FromStr (exact)                                *)
 Definition digit (d : N) : N := 48 + d.
@@ -239,6 +246,7 @@ Inductive api_attr : Type :=
 | AClusterList (ids : list (list N))
 | AExtCommunities (l : list api_extcom)
 | ALargeCommunities (l : list (N * N * N))
+| AMpReach (fam : option (N * N)) (nhs : list (list N))   (* MpReachNLRIAttribute: family, next_hops (nlris are ignored) *)
 | AOther.   (* mp_unreach, as4_path, as4_aggregator, pmsi_tunnel, ip6_extended_communities, aigp *)
 
 Section WithV6.
@@ -516,6 +524,10 @@ Section WithV6.
         end
     end.
 
+  (* the four flowspec families (afi * 65536 + safi) *)
+  Definition is_fs_family (fam : N) : bool :=
+    (fam =? 65669) || (fam =? 131205) || (fam =? 65670) || (fam =? 131206).
+
   Definition seg_ok (s : Z * list N) : bool :=
     (1 <=? fst s)%Z && (fst s <=? 4)%Z && Nat.leb (length (snd s)) 255 && Nat.leb 1 (length (snd s)).
 
@@ -568,6 +580,7 @@ Section WithV6.
     | ALargeCommunities l =>
         Ok (new_with_bin LARGE_COMMUNITY
               (flat_map (fun t => be32 (fst (fst t)) ++ be32 (snd (fst t)) ++ be32 (snd t)) l))
+    | AMpReach _ _ => Ok None   (* not part of the first model *)
     | AOther => Ok None
     end.
 
@@ -637,6 +650,29 @@ Section WithV6.
     | ALargeCommunities l =>
         Ok (nonempty_bin LARGE_COMMUNITY
               (flat_map (fun t => be32 (fst (fst t)) ++ be32 (snd (fst t)) ++ be32 (snd t)) l))
+    | AMpReach fam nhs =>
+        match fam with
+        | None => Ok None
+        | Some (afi, safi) =>
+            if (65535 <? afi) || (255 <? safi) then Ok None else
+            let a16 := afi mod 65536 in
+            let s8 := safi mod 256 in
+            if is_fs_family (a16 * 65536 + s8) && (match nhs with [] => true | _ => false end)
+            then Ok (new_with_bin MP_REACH (be16 a16 ++ [s8; 0; 0]))
+            else
+              match nhs with
+              | [] => Ok None
+              | nh :: _ =>
+                  let nhb := match ip4_of_string nh with
+                             | Some a => Some (be32 a)
+                             | None => match v6_of_string nh with Some a => Some (to_bytes 16 a) | None => None end
+                             end in
+                  match nhb with
+                  | Some b => Ok (new_with_bin MP_REACH (be16 a16 ++ [s8; N.of_nat (length b)] ++ b ++ [0]))
+                  | None => Ok None
+                  end
+              end
+        end
     | AOther => Ok None
     end.
 
@@ -795,13 +831,6 @@ Inductive api_nc : Type :=
 | NcTyped (code : N) (t : list N)                 (* TunnelEncap / PrefixSid / Ls message *)
 | NcUnknown (flags code : N) (b : list N).        (* Unknown { flags, type, value } *)
 
-Fixpoint list_eqb (a b : list N) : bool :=
-  match a, b with
-  | [], [] => true
-  | x :: a', y :: b' => (x =? y) && list_eqb a' b'
-  | _, _ => false
-  end.
-
 Section Guarded.
   (* attr_to_api_typed on the value bytes: the typed message, or None for the
      Unknown form PREFIX_SID falls back to when its decoder fails *)
@@ -840,11 +869,20 @@ End Guarded.
 (* printers                                                            *)
 Definition v_bytes (l : list N) : val := VNs l.
 
+(* a value of more than 1024 octets is printed as [-7, length, sum mod 2^32, first 4, last 4]
+   (the harness prints the same digest) *)
+Definition v_bytes_c (l : list N) : val :=
+  let n := length l in
+  if Nat.ltb 1024 n
+  then VL [VI (-7); VN (N.of_nat n); VN (fold_left (fun acc b => (acc + b) mod 4294967296) l 0);
+           VNs (firstn 4 l); VNs (skipn (n - 4) l)]
+  else VNs l.
+
 Definition v_attr (a : attr) : val :=
   match a_data a with
   | DVal v => VL [VN (a_code a); VN (a_flags a); VI 0; VL [VN v]]
-  | DBin b => VL [VN (a_code a); VN (a_flags a); VI 1; v_bytes b]
-  | DOpaque b => VL [VN (a_code a); VN (a_flags a); VI 2; v_bytes b]
+  | DBin b => VL [VN (a_code a); VN (a_flags a); VI 1; v_bytes_c b]
+  | DOpaque b => VL [VN (a_code a); VN (a_flags a); VI 2; v_bytes_c b]
   end.
 
 Definition v_extcom (x : api_extcom) : val :=
@@ -881,6 +919,7 @@ Definition v_api (x : api_attr) : val :=
   | AExtCommunities l => VL [VI 14; VList v_extcom l]
   | ALargeCommunities l =>
       VL [VI 21; VList (fun t => VL [VN (fst (fst t)); VN (snd (fst t)); VN (snd t)]) l]
+  | AMpReach fam nhs => VL [VI 12; VOpt (fun f => VL [VN (fst f); VN (snd f)]) fam; VList v_bytes nhs]
   | AOther => VL [VI 99]
   end.
 
@@ -910,11 +949,31 @@ Section Run.
      competitor [ORIGIN igp; empty AS_PATH] *)
   Definition competitor : list attr := [mkAttr ORIGIN 64 (DVal 0); mkAttr AS_PATH 64 (DBin [])].
 
+  Definition adata_eqb (x y : adata) : bool :=
+    match x, y with
+    | DVal v, DVal w => v =? w
+    | DBin b, DBin c | DOpaque b, DOpaque c => list_eqb b c
+    | _, _ => false
+    end.
+  Definition attr_eqb (x y : attr) : bool :=
+    (a_code x =? a_code y) && (a_flags x =? a_flags y) && adata_eqb (a_data x) (a_data y).
+
+  (* listing an accepted value and giving it back: 0 the same value, 1 another value, 2 refused *)
+  Definition v_relist (a : attr) : val :=
+    if core_code (a_code a) then
+      match roundtrip v6p v6r a with
+      | Ok (Some a') => VI (if attr_eqb a a' then 0 else 1)
+      | Ok None => VI 2
+      | Panic _ => VL [VI (-1)]
+      end
+    else VI 0.
+
   Definition v_downstream (a : attr) : val :=
     VL [ (if a_code a =? AS_PATH then v_res VN (as_path_length a) else VL [VI (-2)]);
          v_res (fun b => VN (N.of_nat (length b))) (encode_attr a);
          v_res (fun _ => VI 0) (to_api v6p a);
-         v_res (fun z => VB (z <? 0)%Z) (rib_cmp (local_path_attrs [a]) 2 competitor 1) ].
+         v_res (fun z => VB (z <? 0)%Z) (rib_cmp (local_path_attrs [a]) 2 competitor 1);
+         v_relist a ].
 
   (* kind 1: an API attribute message *)
   Definition run_api (x : api_attr) : val :=
@@ -1126,6 +1185,10 @@ Section Nlri.
 
   Definition SLASH : N := 47.
 
+  (* prefix_octets_ok: the address octets after the ceil(len / 8) that travel are zero *)
+  Definition octets_ok (width : N) (a len : N) : bool :=
+    a mod (256 ^ (width - (len + 7) / 8)) =? 0.
+
   (* Prefix: Nlri::from_str(format!("{}/{}", prefix, prefix_len)).  The formatted
      string splits on '/' into exactly two parts iff the prefix holds no '/';
      the decimal u32 parses as a u8 iff it is <= 255.
@@ -1137,23 +1200,23 @@ Section Nlri.
     | PPrefix s len =>
         if existsb (fun c => c =? SLASH) s then None
         else match ip4_of_string s with
-             | Some a => if 255 <? len then None else if 32 <? len then None else Some (NV4 a len)
+             | Some a => if 255 <? len then None else if 32 <? len then None else if octets_ok 4 a len then Some (NV4 a len) else None
              | None =>
                  match v6r s with
-                 | Some a => if 255 <? len then None else if 128 <? len then None else Some (NV6 a len)
+                 | Some a => if 255 <? len then None else if 128 <? len then None else if octets_ok 16 a len then Some (NV6 a len) else None
                  | None => None
                  end
              end
     | PLabeled ls s len =>
         match ip4_of_string s with
         | Some a =>
-            if (32 <? len) || Nat.eqb (length ls) 0 || (255 <? 24 * N.of_nat (length ls) + len) then None
-            else Some (NLab4 (map (fun l => l mod 1048576) ls) a len)
+            if (32 <? len) || existsb (fun l => 1048575 <? l) ls || Nat.eqb (length ls) 0 || (255 <? 24 * N.of_nat (length ls) + len) || negb (octets_ok 4 a len) then None
+            else Some (NLab4 ls a len)
         | None =>
             match v6r s with
             | Some a =>
-                if (128 <? len) || Nat.eqb (length ls) 0 || (255 <? 24 * N.of_nat (length ls) + len) then None
-                else Some (NLab6 (map (fun l => l mod 1048576) ls) a len)
+                if (128 <? len) || existsb (fun l => 1048575 <? l) ls || Nat.eqb (length ls) 0 || (255 <? 24 * N.of_nat (length ls) + len) || negb (octets_ok 16 a len) then None
+                else Some (NLab6 ls a len)
             | None => None
             end
         end
@@ -1163,13 +1226,13 @@ Section Nlri.
         | Some d' =>
             match ip4_of_string s with
             | Some a =>
-                if (32 <? len) || Nat.eqb (length ls) 0 || (255 <? 24 * N.of_nat (length ls) + 64 + len) then None
-                else Some (NVpn4 (map (fun l => l mod 1048576) ls) d' a len)
+                if (32 <? len) || existsb (fun l => 1048575 <? l) ls || Nat.eqb (length ls) 0 || (255 <? 24 * N.of_nat (length ls) + 64 + len) || negb (octets_ok 4 a len) then None
+                else Some (NVpn4 ls d' a len)
             | None =>
                 match v6r s with
                 | Some a =>
-                    if (128 <? len) || Nat.eqb (length ls) 0 || (255 <? 24 * N.of_nat (length ls) + 64 + len) then None
-                    else Some (NVpn6 (map (fun l => l mod 1048576) ls) d' a len)
+                    if (128 <? len) || existsb (fun l => 1048575 <? l) ls || Nat.eqb (length ls) 0 || (255 <? 24 * N.of_nat (length ls) + 64 + len) || negb (octets_ok 16 a len) then None
+                    else Some (NVpn6 ls d' a len)
                 | None => None
                 end
             end
@@ -1410,6 +1473,271 @@ Definition v_api_evpn (x : api_evpn) : val :=
       VL [VI 5; v_api_rd0 d; v_api_esi esi; VN etag; VNs pfx; VN plen; VNs gw; VN label]
   end.
 
+(* ------------------------------------------------------------------ *)
+(* Flowspec NLRI (packet/src/flowspec.rs; flowspec_v4/v6_to_rules, rules_to_v4/v6_components,
+   items_to_ops and the FlowSpec / VpnFlowSpec arms of net_from_api)                       *)
+Inductive fs_comp : Type :=
+| FsPfx (t addr mask off : N)          (* t = 1 destination, 2 source; off is the IPv6 offset (0 for IPv4) *)
+| FsOps (t : N) (ops : list (N * N)).  (* numeric / bitmask component: operators (bits, value) *)
+
+(* v6: the IPv6 families; d: the route distinguisher of the VPN families *)
+Inductive fs_nlri : Type := FsN (v6 : bool) (d : option rd) (comps : list fs_comp).
+
+Inductive api_fs_rule : Type :=
+| FRMissing
+| FRPrefix (t plen : N) (s : list N) (off : N)
+| FRComp (t : N) (items : list (N * N))
+| FRMac.
+
+Inductive api_fs : Type :=
+| AFs (rules : list api_fs_rule)
+| AFsVpn (d : api_rd) (rules : list api_fs_rule).
+
+(* Op::len_order: the value travels in 1, 2, 4 or 8 octets *)
+Definition op_octets (v : N) : N :=
+  if v <=? 255 then 1 else if v <=? 65535 then 2 else if v <=? 4294967295 then 4 else 8.
+
+Definition fs_comp_len (v6 : bool) (c : fs_comp) : N :=
+  match c with
+  | FsPfx _ _ m _ => (if v6 then 3 else 2) + (m + 7) / 8
+  | FsOps _ ops => 1 + fold_right (fun o acc => 1 + op_octets (snd o) + acc) 0 ops
+  end.
+
+Definition fs_body_len (n : fs_nlri) : N :=
+  match n with
+  | FsN v6 d comps => (match d with Some _ => 8 | None => 0 end) + fold_right (fun c acc => fs_comp_len v6 c + acc) 0 comps
+  end.
+
+(* the operator bits the decoder keeps: comparison bits 0..3 and AND (bit 6); bits 4,5
+   (length) and 7 (end of list) are framing *)
+Definition op_core_bits (b : N) : N := b mod 16 + ((b / 64) mod 2) * 64.
+
+Fixpoint ops_from_items (items : list (N * N)) : option (list (N * N)) :=
+  match items with
+  | [] => Some []
+  | (op, v) :: r =>
+      if 255 <? op then None
+      else match ops_from_items r with
+           | Some ops => Some ((match r with [] => op_core_bits op + 128 | _ => op_core_bits op end, v) :: ops)
+           | None => None
+           end
+  end.
+
+Section Flowspec.
+  Variable v6p : N -> list N.
+  Variable v6r : list N -> option N.
+
+  Definition fs_comp_to_api (v6 : bool) (c : fs_comp) : api_fs_rule :=
+    match c with
+    | FsPfx t a m off => FRPrefix t m (if v6 then v6p a else ip4_to_string a) (if v6 then off else 0)
+    | FsOps t ops => FRComp t ops
+    end.
+
+  Definition fs_to_api (n : fs_nlri) : api_fs :=
+    match n with
+    | FsN v6 None comps => AFs (map (fs_comp_to_api v6) comps)
+    | FsN v6 (Some d) comps => AFsVpn (rd_to_api d) (map (fs_comp_to_api v6) comps)
+    end.
+
+  Definition fs_rule_from_api (v6 : bool) (r : api_fs_rule) : option fs_comp :=
+    match r with
+    | FRMissing | FRMac => None
+    | FRPrefix t plen s off =>
+        match (if v6 then v6r s else ip4_of_string s) with
+        | None => None
+        | Some a =>
+            let w := if v6 then 16 else 4 in
+            if (8 * w <? plen) || negb (octets_ok w a plen) || (v6 && (255 <? off)) || negb ((t =? 1) || (t =? 2))
+            then None else Some (FsPfx t a plen (if v6 then off else 0))
+        end
+    | FRComp t items =>
+        match items with
+        | [] => None
+        | _ =>
+            match ops_from_items items with
+            | None => None
+            | Some ops => if (3 <=? t) && (t <=? (if v6 then 13 else 12)) then Some (FsOps t ops) else None
+            end
+        end
+    end.
+
+  Fixpoint fs_rules_from_api (v6 : bool) (rs : list api_fs_rule) : option (list fs_comp) :=
+    match rs with
+    | [] => Some []
+    | r :: rest =>
+        match fs_rule_from_api v6 r, fs_rules_from_api v6 rest with
+        | Some c, Some cs => Some (c :: cs)
+        | _, _ => None
+        end
+    end.
+
+  (* family = afi * 65536 + safi: 1/133, 2/133 plain; 1/134, 2/134 VPN *)
+  Definition fs_from_api (family : N) (x : api_fs) : option fs_nlri :=
+    let checked (n : fs_nlri) := if 4095 <? fs_body_len n then None else Some n in
+    match x with
+    | AFs rules =>
+        if family =? 65669 then match fs_rules_from_api false rules with Some cs => checked (FsN false None cs) | None => None end
+        else if family =? 131205 then match fs_rules_from_api true rules with Some cs => checked (FsN true None cs) | None => None end
+        else None
+    | AFsVpn d rules =>
+        match rd_from_api d with
+        | None => None
+        | Some d' =>
+            if family =? 65670 then match fs_rules_from_api false rules with Some cs => checked (FsN false (Some d') cs) | None => None end
+            else if family =? 131206 then match fs_rules_from_api true rules with Some cs => checked (FsN true (Some d') cs) | None => None end
+            else None
+        end
+    end.
+End Flowspec.
+
+(* ------------------------------------------------------------------ *)
+(* SR Policy NLRI and Route Target Constraint NLRI                        *)
+Inductive srp : Type := SrP (v6 : bool) (dist color endpoint : N).
+Inductive api_srp : Type := ASrP (length dist color : N) (endpoint : list N).
+
+Definition srp_to_api (n : srp) : api_srp :=
+  match n with SrP v6 d c e => ASrP (if v6 then 192 else 96) d c (to_bytes (if v6 then 16 else 4) e) end.
+
+Definition srp_from_api (x : api_srp) : option srp :=
+  match x with
+  | ASrP _ d c e =>
+      if Nat.eqb (length e) 4 then Some (SrP false d c (of_bytes e))
+      else if Nat.eqb (length e) 16 then Some (SrP true d c (of_bytes e))
+      else None
+  end.
+
+Inductive rtc : Type := RtcWild | RtcAs (asn : N) | RtcExact (asn : N) (rt : list N).
+
+Inductive api_rt : Type :=
+| RtMissing                                  (* RouteTarget without its oneof *)
+| Rt2 (tr : bool) (sub asn la : N)
+| RtIp (tr : bool) (sub : N) (addr : list N) (la : N)
+| Rt4 (tr : bool) (sub asn la : N).
+
+Inductive api_rtc : Type := ARtc (asn : N) (rt : option api_rt).
+
+Definition rt_to_api (rt : list N) : api_rt :=
+  match rt with
+  | [t; s; b2; b3; b4; b5; b6; b7] =>
+      if t =? 0 then Rt2 true s (of_be16 b2 b3) (of_be32 b4 b5 b6 b7)
+      else if t =? 1 then RtIp true s (ip4_to_string (of_be32 b2 b3 b4 b5)) (of_be16 b6 b7)
+      else Rt4 true s (of_be32 b2 b3 b4 b5) (of_be16 b6 b7)
+  | _ => RtMissing
+  end.
+
+Definition rt_from_api (x : api_rt) : option (list N) :=
+  match x with
+  | RtMissing => None
+  | Rt2 _ sub asn la => if negb (sub =? 2) || (65535 <? asn) then None else Some (0 :: 2 :: be16 asn ++ be32 la)
+  | RtIp _ sub addr la =>
+      if negb (sub =? 2) || (65535 <? la) then None
+      else match ip4_of_string addr with Some a => Some (1 :: 2 :: be32 a ++ be16 la) | None => None end
+  | Rt4 _ sub asn la => if negb (sub =? 2) || (65535 <? la) then None else Some (2 :: 2 :: be32 asn ++ be16 la)
+  end.
+
+Definition rtc_to_api (n : rtc) : api_rtc :=
+  match n with
+  | RtcWild => ARtc 0 None
+  | RtcAs a => ARtc a None
+  | RtcExact a rt => ARtc a (Some (rt_to_api rt))
+  end.
+
+Definition rtc_from_api (x : api_rtc) : option rtc :=
+  match x with
+  | ARtc a None => Some (if a =? 0 then RtcWild else RtcAs a)
+  | ARtc a (Some rt) => match rt_from_api rt with Some b => Some (RtcExact a b) | None => None end
+  end.
+
+Definition v_api_fs_rule (r : api_fs_rule) : val :=
+  match r with
+  | FRMissing => VL [VI 0]
+  | FRPrefix t m s off => VL [VI 1; VN t; VN m; VNs s; VN off]
+  | FRComp t items => VL [VI 2; VN t; VList (fun o => VL [VN (fst o); VN (snd o)]) items]
+  | FRMac => VL [VI 3]
+  end.
+
+Definition v_api_fs (x : api_fs) : val :=
+  match x with
+  | AFs rules => VL [VI 10; VList v_api_fs_rule rules]
+  | AFsVpn d rules => VL [VI 11; v_api_rd0 d; VList v_api_fs_rule rules]
+  end.
+
+Definition v_api_rt (x : option api_rt) : val :=
+  match x with
+  | None => VL []
+  | Some RtMissing => VL [VI 0]
+  | Some (Rt2 tr s a l) => VL [VI 1; VB tr; VN s; VN a; VN l]
+  | Some (RtIp tr s a l) => VL [VI 2; VB tr; VN s; VNs a; VN l]
+  | Some (Rt4 tr s a l) => VL [VI 3; VB tr; VN s; VN a; VN l]
+  end.
+
+(* wire encodings (Nlri::encode) of the three families *)
+Definition fs_op_bytes (o : N * N) : list N :=
+  let k := op_octets (snd o) in
+  let order := if k =? 1 then 0 else if k =? 2 then 1 else if k =? 4 then 2 else 3 in
+  (* bits | (order << 4): the length bits of [bits] are clear in every value the converters build *)
+  (fst o + order * 16) :: to_bytes (N.to_nat k) (snd o).
+
+Definition fs_comp_bytes (v6 : bool) (c : fs_comp) : list N :=
+  match c with
+  | FsPfx t a m off =>
+      t :: m :: (if v6 then [off] else []) ++ firstn (N.to_nat ((m + 7) / 8)) (to_bytes (if v6 then 16 else 4) a)
+  | FsOps t ops => t :: flat_map fs_op_bytes ops
+  end.
+
+Definition fs_encode (n : fs_nlri) : list N :=
+  match n with
+  | FsN v6 d comps =>
+      let body := (match d with Some d' => rd_bytes d' | None => [] end) ++ flat_map (fs_comp_bytes v6) comps in
+      let len := N.of_nat (length body) in
+      (if len <? 240 then [len] else [240 + len / 256; len mod 256]) ++ body
+  end.
+
+Definition srp_encode (n : srp) : list N :=
+  match n with SrP v6 d c e => (if v6 then 192 else 96) :: be32 d ++ be32 c ++ to_bytes (if v6 then 16 else 4) e end.
+
+Definition rtc_encode (n : rtc) : list N :=
+  match n with
+  | RtcWild => [0]
+  | RtcAs a => 32 :: be32 a
+  | RtcExact a rt => 96 :: be32 a ++ rt
+  end.
+
+(* kind 8, modelled families.  The observation compared is [accepted; decodes back; relisted; API form
+   listed for the accepted value] (what the harness prints in positions 0, 3, 4, 5). *)
+Definition run_api_fs_case (family : N) (x : api_fs) : val :=
+  match fs_from_api v6_parse family x with
+  | None => VL [VI 0]
+  | Some n =>
+      let y := fs_to_api v6_print n in
+      VL [VI 1; VNs (fs_encode n); VI 1; VI (match fs_from_api v6_parse family y with Some n' => 0 | None => 2 end); v_api_fs y]
+  end.
+
+Definition srp_family_ok (n : srp) (family : N) : bool :=
+  match n with SrP v6 _ _ _ => family =? (if v6 then 131145 else 65609) end.
+
+Definition run_api_srp_case (family : N) (x : api_srp) : val :=
+  match srp_from_api x with
+  | None => VL [VI 0]
+  | Some n =>
+      if negb (srp_family_ok n family) then VL [VI 0] else
+      match srp_to_api n with
+      | ASrP l d c e => VL [VI 1; VNs (srp_encode n); VI 1; VI 0; VL [VI 12; VN l; VN d; VN c; VNs e]]
+      end
+  end.
+
+Definition run_api_rtc_case (family : N) (x : api_rtc) : val :=
+  match rtc_from_api x with
+  | None => VL [VI 0]
+  | Some n =>
+      if negb (family =? 65668) then VL [VI 0] else
+      match rtc_to_api n with
+      | ARtc a rt =>
+          VL [VI 1; VNs (rtc_encode n); VI 1; VI (match rtc_from_api (rtc_to_api n) with Some n' => 0 | None => 2 end);
+              VL [VI 13; VN a; v_api_rt rt]]
+      end
+  end.
+
 (* kind 6: an API EVPN message (the last element: the accepted route survives its own
    wire encoding, which the harness checks by decoding Nlri::encode's bytes);
    kind 7: an internal EVPN route *)
@@ -1455,6 +1783,17 @@ Definition v_onlri (o : option nlri) : val :=
 
 (* ------------------------------------------------------------------ *)
 (* GrpcService::local_path: family, NLRI, then the attributes one by one      *)
+(* convert::nlri_matches_family for the modelled NLRI kinds (family = afi * 65536 + safi) *)
+Definition nlri_matches_family (n : nlri) (family : N) : bool :=
+  match n with
+  | NV4 _ _ => (family =? 65537) || (family =? 65538)
+  | NV6 _ _ => (family =? 131073) || (family =? 131074)
+  | NLab4 _ _ _ => family =? 65540
+  | NLab6 _ _ _ => family =? 131076
+  | NVpn4 _ _ _ _ => family =? 65664
+  | NVpn6 _ _ _ _ => family =? 131200
+  end.
+
 Section LocalPath.
   Variable v6r : list N -> option N.
 
@@ -1509,9 +1848,11 @@ Section LocalPath.
   Definition local_path (fam : option N) (n : api_nlri) (xs : list api_attr)
     : option (N * nlri * list attr * option (list N)) :=
     let family := match fam with Some f => f | None => 65537 end in
+    if (65535 <? family / 65536) || (255 <? family mod 65536) then None else
     match net_from_api v6r n with
     | None => None
     | Some net =>
+        if negb (nlri_matches_family net family) then None else
         match lp_loop family xs [] None with
         | None => None
         | Some (acc, nh) => Some (family, net, with_defaults acc, nh)
@@ -1532,7 +1873,8 @@ Definition run_local_path_case (fam : option N) (n : api_nlri) (xs : list api_at
 Definition run_api_nlri_case (p : profile) (x : api_nlri) : val :=
   match net_from_api v6_parse x with
   | None => VL [VI 0]
-  | Some n => VL [VI 1; v_nlri n; v_res (fun b => VNs b) (encode_nlri p n)]
+  | Some n => VL [VI 1; v_nlri n; v_res (fun b => VNs b) (encode_nlri p n);
+                  v_onlri (net_from_api v6_parse (nlri_to_api v6_print n))]
   end.
 
 Definition run_nlri_case (n : nlri) : val :=
@@ -1541,3 +1883,543 @@ Definition run_nlri_case (n : nlri) : val :=
 
 Definition run_wire_case := run_wire v6_print v6_parse.
 Definition run_api_case := run_api v6_print v6_parse.
+
+(* ================================================================== *)
+(* Typed messages of the attributes whose value is a TLV tree          *)
+(* (daemon/src/convert.rs prefix_sid_from_api / prefix_sid_to_api,     *)
+(*  tunnel_encap_tlv_from_api / tunnel_encap_tlv_to_api and the        *)
+(*  encoders of packet/src/prefix_sid.rs, packet/src/tunnel_encap.rs)  *)
+
+(* every element converts, or the whole list is refused (the `?` inside a for loop) *)
+Fixpoint opt_all {A B} (f : A -> option B) (l : list A) : option (list B) :=
+  match l with
+  | [] => Some []
+  | x :: r => match f x, opt_all f r with Some y, Some ys => Some (y :: ys) | _, _ => None end
+  end.
+
+(* [type][length: 2 octets][value]: `value.len() as u16` *)
+Definition tlv16 (t : N) (v : list N) : list N := t :: be16 (N.of_nat (length v)) ++ v.
+(* [type][length: 1 octet][value]: `body.len() as u8` *)
+Definition tlv8 (t : N) (v : list N) : list N := t :: (N.of_nat (length v) mod 256) :: v.
+
+(* ---- PREFIX_SID: SRv6 L3 / L2 service TLVs *)
+Inductive psst : Type := PsSt (a b c d e f : N).                            (* SID structure sub-sub-TLV *)
+Inductive ps_info : Type := PsInfo (sid : list N) (beh : N) (structs : list psst).
+Inductive ps_tlv : Type := PsSvc (l2 : bool) (infos : list ps_info).
+Definition psid : Type := list ps_tlv.
+
+(* a prost map is given as the list of its entries in iteration order *)
+Inductive api_psst : Type := APsStMissing | APsSt (a b c d e f : N).
+Inductive api_ps_info : Type := APsInfoMissing | APsInfo (sid : list N) (beh : N) (subsub : list (N * list api_psst)).
+Inductive api_ps_tlv : Type := APsMissing | APsSvc (l2 : bool) (subs : list (N * list api_ps_info)).
+
+Definition psst_from_api (x : api_psst) : option psst :=
+  match x with
+  | APsStMissing => None
+  | APsSt a b c d e f =>
+      if (255 <? a) || (255 <? b) || (255 <? c) || (255 <? d) || (255 <? e) || (255 <? f) then None
+      else Some (PsSt a b c d e f)
+  end.
+
+Definition ps_info_from_api (x : api_ps_info) : option ps_info :=
+  match x with
+  | APsInfoMissing => None
+  | APsInfo sid beh ss =>
+      if negb (Nat.eqb (length sid) 16) then None
+      else if 65535 <? beh then None
+      else match opt_all psst_from_api (flat_map snd ss) with
+           | Some l => Some (PsInfo sid beh l)
+           | None => None
+           end
+  end.
+
+Definition ps_tlv_from_api (x : api_ps_tlv) : option ps_tlv :=
+  match x with
+  | APsMissing => None
+  | APsSvc l2 subs =>
+      match opt_all ps_info_from_api (flat_map snd subs) with
+      | Some l => Some (PsSvc l2 l)
+      | None => None
+      end
+  end.
+
+Definition psid_from_api (x : list api_ps_tlv) : option psid := opt_all ps_tlv_from_api x.
+
+Definition psst_bytes (s : psst) : list N := match s with PsSt a b c d e f => tlv16 1 [a; b; c; d; e; f] end.
+Definition ps_info_value (i : ps_info) : list N :=
+  match i with PsInfo sid beh ss => 0 :: sid ++ 0 :: be16 beh ++ 0 :: flat_map psst_bytes ss end.
+Definition ps_info_bytes (i : ps_info) : list N := tlv16 1 (ps_info_value i).
+Definition ps_tlv_value (t : ps_tlv) : list N := match t with PsSvc _ infos => 0 :: flat_map ps_info_bytes infos end.
+Definition ps_tlv_bytes (t : ps_tlv) : list N :=
+  tlv16 (match t with PsSvc l2 _ => if l2 then 6 else 5 end) (ps_tlv_value t).
+Definition psid_encode (p : psid) : list N := flat_map ps_tlv_bytes p.
+
+(* attr_from_api on a PrefixSid message *)
+Definition from_api_psid (x : list api_ps_tlv) : res (option attr) :=
+  match psid_from_api x with
+  | Some p => len_check (new_with_bin PREFIX_SID (psid_encode p))
+  | None => Ok None
+  end.
+
+Definition psst_to_api (s : psst) : api_psst := match s with PsSt a b c d e f => APsSt a b c d e f end.
+Definition ps_info_to_api (i : ps_info) : api_ps_info :=
+  match i with PsInfo sid beh ss => APsInfo sid beh (match ss with [] => [] | _ => [(1, map psst_to_api ss)] end) end.
+Definition ps_tlv_to_api (t : ps_tlv) : api_ps_tlv :=
+  match t with PsSvc l2 infos => APsSvc l2 (match infos with [] => [] | _ => [(1, map ps_info_to_api infos)] end) end.
+Definition psid_to_api (p : psid) : list api_ps_tlv := map ps_tlv_to_api p.
+
+(* ---- TUNNEL_ENCAP: SR Policy candidate path, raw value for the other tunnel types *)
+Inductive ebs : Type := Ebs (beh bl nl fl al : N).
+Inductive api_ebs : Type := AEbs (beh : Z) (bl nl fl al : N).          (* behavior is an int32 enumeration field *)
+
+Definition ebs_from_api (e : api_ebs) : option ebs :=
+  match e with
+  | AEbs beh bl nl fl al =>
+      if (beh <? 0)%Z || (65535 <? beh)%Z || (255 <? bl) || (255 <? nl) || (255 <? fl) || (255 <? al) then None
+      else Some (Ebs (Z.to_N beh) bl nl fl al)
+  end.
+Definition ebs_to_api (e : ebs) : api_ebs := match e with Ebs beh bl nl fl al => AEbs (Z.of_N beh) bl nl fl al end.
+
+Definition flag_bit (b : bool) (v : N) : N := if b then v else 0.
+Definition segflags (f : option (bool * bool * bool * bool)) : N :=
+  match f with
+  | None => 0
+  | Some (v, a, s, b) => flag_bit v 128 + flag_bit a 64 + flag_bit s 32 + flag_bit b 16
+  end.
+Definition bit_set (f v : N) : bool := negb ((f / v) mod 2 =? 0).
+
+Inductive te_seg : Type := SegA (flags label : N) | SegB (flags : N) (sid : list N) (e : option ebs).
+Inductive api_seg : Type :=
+| ASegMissing
+| ASegA (fl : option (bool * bool * bool * bool)) (label : N)
+| ASegB (fl : option (bool * bool * bool * bool)) (sid : list N) (e : option api_ebs).
+
+Definition seg_from_api (x : api_seg) : option te_seg :=
+  match x with
+  | ASegMissing => None
+  | ASegA fl label => if 1048575 <? label then None else Some (SegA (segflags fl) label)
+  | ASegB fl sid e =>
+      if negb (Nat.eqb (length sid) 16) then None
+      else match e with
+           | None => Some (SegB (segflags fl) sid None)
+           | Some e' => match ebs_from_api e' with Some e'' => Some (SegB (segflags fl) sid (Some e'')) | None => None end
+           end
+  end.
+
+Inductive te_bsid : Type := BsMpls (flags label : N) | BsSrv6 (flags : N) (sid : list N).
+
+Record te_cp : Type := mkCp {
+  cp_pref : option (N * N);                          (* flags, preference *)
+  cp_bsid : option te_bsid;                          (* sub-TLV 13 *)
+  cp_bsid6 : option (N * list N * ebs);              (* sub-TLV 20: flags, SID, behaviour structure *)
+  cp_enlp : option (N * N);
+  cp_prio : option N;
+  cp_segs : list (option (N * N) * list te_seg);     (* weight (flags, weight), segments *)
+  cp_name : option (list N);
+  cp_pname : option (list N)
+}.
+Definition cp_empty : te_cp := mkCp None None None None None [] None None.
+
+Inductive te_tlv : Type := TeSr (cp : te_cp) | TeRaw (type : N) (v : list N).
+
+Inductive api_te_sub : Type :=
+| ATsMissing                                          (* the oneof is not set *)
+| ATsOther                                            (* Encapsulation, Protocol, Color, EgressEndpoint, UdpDestPort *)
+| ATsPref (flags pref : N)
+| ATsBsidNone
+| ATsBsidMpls (s i : bool) (sid : list N)
+| ATsBsid6 (s i b : bool) (sid : list N) (e : option api_ebs)
+| ATsEnlp (flags : N) (enlp : Z)
+| ATsPrio (p : N)
+| ATsName (n : list N)
+| ATsSegList (w : option (N * N)) (segs : list api_seg)
+| ATsUnknown (t : N) (v : list N).
+
+(* std::str::from_utf8(..).is_ok() *)
+Definition cont (b : N) : bool := (128 <=? b) && (b <=? 191).
+Fixpoint utf8_valid (l : list N) : bool :=
+  match l with
+  | [] => true
+  | b0 :: r =>
+      if b0 <? 128 then utf8_valid r
+      else if (194 <=? b0) && (b0 <=? 223) then
+        match r with b1 :: r' => cont b1 && utf8_valid r' | _ => false end
+      else if (224 <=? b0) && (b0 <=? 239) then
+        match r with
+        | b1 :: b2 :: r' =>
+            (if b0 =? 224 then (160 <=? b1) && (b1 <=? 191)
+             else if b0 =? 237 then (128 <=? b1) && (b1 <=? 159)
+             else cont b1) && cont b2 && utf8_valid r'
+        | _ => false
+        end
+      else if (240 <=? b0) && (b0 <=? 244) then
+        match r with
+        | b1 :: b2 :: b3 :: r' =>
+            (if b0 =? 240 then (144 <=? b1) && (b1 <=? 191)
+             else if b0 =? 244 then (128 <=? b1) && (b1 <=? 143)
+             else cont b1) && cont b2 && cont b3 && utf8_valid r'
+        | _ => false
+        end
+      else false
+  end.
+
+(* a sub-TLV that may appear once: a second one is refused *)
+Definition once {A} (slot : option A) : bool := match slot with Some _ => false | None => true end.
+
+Definition cp_step (cp : te_cp) (s : api_te_sub) : option te_cp :=
+  match cp with
+  | mkCp pref bsid bsid6 enlp prio segs name pname =>
+      match s with
+      | ATsMissing | ATsOther | ATsBsidNone => None
+      | ATsPref f p =>
+          if (255 <? f) || negb (once pref) then None else Some (mkCp (Some (f, p)) bsid bsid6 enlp prio segs name pname)
+      | ATsBsidMpls sf i_ sid =>
+          match sid with
+          | [a; b; c; d] =>
+              let entry := of_be32 a b c d in
+              if negb (entry mod 4096 =? 0) || negb (once bsid) then None
+              else Some (mkCp pref (Some (BsMpls (flag_bit sf 128 + flag_bit i_ 64) (entry / 4096))) bsid6 enlp prio segs name pname)
+          | _ => None
+          end
+      | ATsBsid6 sf i_ bf sid e =>
+          let flags := flag_bit sf 128 + flag_bit i_ 64 + flag_bit bf 32 in
+          if negb (Nat.eqb (length sid) 16) then None
+          else match e with
+               | None => if once bsid then Some (mkCp pref (Some (BsSrv6 flags sid)) bsid6 enlp prio segs name pname) else None
+               | Some e' =>
+                   match ebs_from_api e' with
+                   | Some e'' => if once bsid6 then Some (mkCp pref bsid (Some (flags, sid, e'')) enlp prio segs name pname) else None
+                   | None => None
+                   end
+               end
+      | ATsEnlp f e =>
+          if (255 <? f) || (e <? 0)%Z || (255 <? e)%Z || negb (once enlp) then None
+          else Some (mkCp pref bsid bsid6 (Some (f, Z.to_N e)) prio segs name pname)
+      | ATsPrio p =>
+          if (255 <? p) || negb (once prio) then None else Some (mkCp pref bsid bsid6 enlp (Some p) segs name pname)
+      | ATsName n => if once name then Some (mkCp pref bsid bsid6 enlp prio segs (Some n) pname) else None
+      | ATsSegList w gs =>
+          if match w with Some (f, _) => 255 <? f | None => false end then None
+          else match opt_all seg_from_api gs with
+               | Some l => Some (mkCp pref bsid bsid6 enlp prio (segs ++ [(w, l)]) name pname)
+               | None => None
+               end
+      | ATsUnknown t v =>
+          if (t =? 130) && utf8_valid v && once pname then Some (mkCp pref bsid bsid6 enlp prio segs name (Some v)) else None
+      end
+  end.
+
+Fixpoint cp_steps (cp : te_cp) (subs : list api_te_sub) : option te_cp :=
+  match subs with
+  | [] => Some cp
+  | s :: r => match cp_step cp s with Some cp' => cp_steps cp' r | None => None end
+  end.
+
+Fixpoint raw_values (subs : list api_te_sub) : option (list N) :=
+  match subs with
+  | [] => Some []
+  | ATsUnknown _ v :: r => match raw_values r with Some l => Some (v ++ l) | None => None end
+  | _ => None
+  end.
+
+Definition SR_POLICY : N := 15.
+
+Definition te_tlv_from_api (x : N * list api_te_sub) : option te_tlv :=
+  let (t, subs) := x in
+  if 65535 <? t then None
+  else if t =? SR_POLICY then match cp_steps cp_empty subs with Some cp => Some (TeSr cp) | None => None end
+  else match raw_values subs with Some v => Some (TeRaw t v) | None => None end.
+
+Definition te_from_api (x : list (N * list api_te_sub)) : option (list te_tlv) := opt_all te_tlv_from_api x.
+
+(* packet::tunnel_encap::encode *)
+Definition ebs_seg_bytes (e : option ebs) : list N :=
+  match e with Some (Ebs beh bl nl fl al) => be16 beh ++ [0; 0; bl; nl; fl; al] | None => [] end.
+Definition seg_value (g : te_seg) : list N :=
+  match g with
+  | SegA f label => f :: 0 :: be32 (label * 4096)
+  | SegB f sid e => f :: 0 :: sid ++ ebs_seg_bytes e
+  end.
+Definition seg_bytes (g : te_seg) : list N := tlv8 (match g with SegA _ _ => 1 | SegB _ _ _ => 13 end) (seg_value g).
+Definition seglist_value (sl : option (N * N) * list te_seg) : list N :=
+  0 :: (match fst sl with Some (f, w) => tlv8 9 (f :: 0 :: be32 w) | None => [] end) ++ flat_map seg_bytes (snd sl).
+Definition opt_bytes {A B} (o : option A) (f : A -> list B) : list B := match o with Some x => f x | None => [] end.
+Definition cp_bytes (cp : te_cp) : list N :=
+  opt_bytes (cp_pref cp) (fun x => tlv8 12 (fst x :: 0 :: be32 (snd x)))
+  ++ opt_bytes (cp_bsid cp) (fun x => match x with
+                                      | BsMpls f l => tlv8 13 (f :: 0 :: be32 (l * 4096))
+                                      | BsSrv6 f sid => tlv8 13 (f :: 0 :: sid)
+                                      end)
+  ++ opt_bytes (cp_bsid6 cp) (fun x => match x with
+                                       | (f, sid, Ebs beh bl nl fl al) => tlv8 20 (f :: 0 :: sid ++ be16 beh ++ [bl; nl; fl; al])
+                                       end)
+  ++ opt_bytes (cp_enlp cp) (fun x => tlv8 14 [fst x; 0; snd x])
+  ++ opt_bytes (cp_prio cp) (fun p => tlv8 15 [p; 0])
+  ++ opt_bytes (cp_name cp) (fun n => tlv16 129 (0 :: n))
+  ++ opt_bytes (cp_pname cp) (fun n => tlv16 130 (0 :: n))
+  ++ flat_map (fun sl => tlv16 128 (seglist_value sl)) (cp_segs cp).
+
+Definition te_tlv_value (t : te_tlv) : list N := match t with TeSr cp => cp_bytes cp | TeRaw _ v => v end.
+Definition te_tlv_type (t : te_tlv) : N := match t with TeSr _ => SR_POLICY | TeRaw ty _ => ty end.
+Definition te_tlv_bytes (t : te_tlv) : list N :=
+  be16 (te_tlv_type t) ++ be16 (N.of_nat (length (te_tlv_value t))) ++ te_tlv_value t.
+Definition te_encode (l : list te_tlv) : list N := flat_map te_tlv_bytes l.
+
+(* attr_from_api on a TunnelEncap message *)
+Definition from_api_te (x : list (N * list api_te_sub)) : res (option attr) :=
+  match te_from_api x with
+  | Some l => len_check (new_with_bin TUNNEL_ENCAP (te_encode l))
+  | None => Ok None
+  end.
+
+(* tunnel_encap_tlv_to_api on the value as the decoder of packet/src/tunnel_encap.rs reads it: a type B
+   segment's behaviour structure is read only under flag 0x40, a raw value has no typed sub-TLVs *)
+Definition flags4 (f : N) : option (bool * bool * bool * bool) := Some (bit_set f 128, bit_set f 64, bit_set f 32, bit_set f 16).
+Definition seg_to_api (g : te_seg) : api_seg :=
+  match g with
+  | SegA f label => ASegA (flags4 f) label
+  | SegB f sid e => ASegB (flags4 f) sid (if bit_set f 64 then option_map ebs_to_api e else None)
+  end.
+Definition cp_to_api (cp : te_cp) : list api_te_sub :=
+  opt_bytes (cp_pref cp) (fun x => [ATsPref (fst x) (snd x)])
+  ++ opt_bytes (cp_bsid cp) (fun x => match x with
+                                      | BsMpls f l => [ATsBsidMpls (bit_set f 128) (bit_set f 64) (be32 (l * 4096))]
+                                      | BsSrv6 f sid => [ATsBsid6 (bit_set f 128) (bit_set f 64) false sid None]
+                                      end)
+  ++ opt_bytes (cp_bsid6 cp) (fun x => match x with
+                                       | (f, sid, e) => [ATsBsid6 (bit_set f 128) (bit_set f 64) (bit_set f 32) sid (Some (ebs_to_api e))]
+                                       end)
+  ++ opt_bytes (cp_enlp cp) (fun x => [ATsEnlp (fst x) (Z.of_N (snd x))])
+  ++ opt_bytes (cp_prio cp) (fun p => [ATsPrio p])
+  ++ map (fun sl => ATsSegList (fst sl) (map seg_to_api (snd sl))) (cp_segs cp)
+  ++ opt_bytes (cp_name cp) (fun n => [ATsName n])
+  ++ opt_bytes (cp_pname cp) (fun n => [ATsUnknown 130 n]).
+Definition te_tlv_to_api (t : te_tlv) : N * list api_te_sub :=
+  match t with TeSr cp => (SR_POLICY, cp_to_api cp) | TeRaw ty _ => (ty, []) end.
+Definition te_to_api (l : list te_tlv) : list (N * list api_te_sub) := map te_tlv_to_api l.
+
+(* attr_to_api shows the typed message only when it gives the stored octets back *)
+Definition te_lists_typed (l : list te_tlv) : bool :=
+  match te_from_api (te_to_api l) with
+  | Some l' => list_eqb (te_encode l') (te_encode l)
+  | None => false
+  end.
+
+(* ---- kind 9: [accepted; value octets; the listing (typed message, or 99 for the raw form)] *)
+Definition v_pair_list {A} (f : A -> val) (l : list A) : val := match l with [] => VL [] | _ => VL [VL [VI 1; VList f l]] end.
+Definition v_psst (s : api_psst) : val :=
+  match s with APsStMissing => VL [VI 0] | APsSt a b c d e f => VL [VI 1; VN a; VN b; VN c; VN d; VN e; VN f] end.
+Definition v_ps_info (i : api_ps_info) : val :=
+  match i with
+  | APsInfoMissing => VL [VI 0]
+  | APsInfo sid beh ss => VL [VI 1; VNs sid; VN beh; VList (fun e => VL [VN (fst e); VList v_psst (snd e)]) ss]
+  end.
+Definition v_ps_tlv (t : api_ps_tlv) : val :=
+  match t with
+  | APsMissing => VL [VI 0]
+  | APsSvc l2 subs => VL [VI (if l2 then 4 else 3); VList (fun e => VL [VN (fst e); VList v_ps_info (snd e)]) subs]
+  end.
+
+Definition run_api_psid_case (x : list api_ps_tlv) : val :=
+  match psid_from_api x with
+  | None => VL [VI 0]
+  | Some p =>
+      let b := psid_encode p in
+      if 65535 <? N.of_nat (length b) then VL [VI 0]
+      else if Nat.ltb 1024 (length b) then VL [VI 1; v_bytes_c b; VL [VI (-7)]]     (* long value: the listing is not printed *)
+      else VL [VI 1; v_bytes_c b; VList v_ps_tlv (psid_to_api p)]
+  end.
+
+Definition v_ebs (e : option api_ebs) : val :=
+  match e with None => VL [] | Some (AEbs beh bl nl fl al) => VL [VI beh; VN bl; VN nl; VN fl; VN al] end.
+Definition v_flags4 (f : option (bool * bool * bool * bool)) : val :=
+  match f with None => VL [] | Some (v, a, s, b) => VL [VB v; VB a; VB s; VB b] end.
+Definition v_seg (g : api_seg) : val :=
+  match g with
+  | ASegMissing => VL [VI 0]
+  | ASegA fl label => VL [VI 1; v_flags4 fl; VN label]
+  | ASegB fl sid e => VL [VI 2; v_flags4 fl; VNs sid; v_ebs e]
+  end.
+Definition v_te_sub (s : api_te_sub) : val :=
+  match s with
+  | ATsMissing => VL [VI 0]
+  | ATsOther => VL [VI 8; VI 0]
+  | ATsPref f p => VL [VI 1; VN f; VN p]
+  | ATsBsidNone => VL [VI 2; VI 0]
+  | ATsBsidMpls s i sid => VL [VI 2; VI 1; VB s; VB i; VNs sid]
+  | ATsBsid6 s i b sid e => VL [VI 2; VI 2; VB s; VB i; VB b; VNs sid; v_ebs e]
+  | ATsEnlp f e => VL [VI 3; VN f; VI e]
+  | ATsPrio p => VL [VI 4; VN p]
+  | ATsName n => VL [VI 5; VNs n]
+  | ATsSegList w gs => VL [VI 6; match w with Some (f, x) => VL [VN f; VN x] | None => VL [] end; VList v_seg gs]
+  | ATsUnknown t v => VL [VI 7; VN t; VNs v]
+  end.
+
+Definition run_api_te_case (x : list (N * list api_te_sub)) : val :=
+  match te_from_api x with
+  | None => VL [VI 0]
+  | Some l =>
+      let b := te_encode l in
+      if 65535 <? N.of_nat (length b) then VL [VI 0]
+      else if Nat.ltb 1024 (length b) then VL [VI 1; v_bytes_c b; VL [VI (-7)]]
+      else VL [VI 1; v_bytes_c b;
+               if te_lists_typed l then VList (fun t => VL [VN (fst t); VList v_te_sub (snd t)]) (te_to_api l) else VL [VI 99]]
+  end.
+
+(* ================================================================== *)
+(* BGP-MUP NLRI (packet/src/mup.rs; convert.rs mup_nlri_to_api, the four Mup arms of      *)
+(* net_from_api, parse_prefix)                                                              *)
+Inductive mup : Type :=
+| MupIsd (d : rd) (a : ipaddr) (len : N)
+| MupDsd (d : rd) (a : ipaddr)
+| MupT1 (d : rd) (a : ipaddr) (len teid qfi : N) (ep : ipaddr) (src : option ipaddr)
+| MupT2 (d : rd) (ealen : N) (ep : ipaddr) (teid : N).
+
+Inductive api_mup : Type :=
+| AMupIsd (d : api_rd) (prefix : list N)
+| AMupDsd (d : api_rd) (addr : list N)
+| AMupT1 (d : api_rd) (prefix : list N) (teid qfi ealen : N) (ep : list N) (salen : N) (src : list N)
+| AMupT2 (d : api_rd) (ealen : N) (ep : list N) (teid : N).
+
+(* u8::from_str: an optional '+', at least one decimal digit, value at most 255 *)
+Fixpoint dec_digits (l : list N) (acc : N) : option N :=
+  match l with
+  | [] => Some acc
+  | c :: r => if is_digit c then dec_digits r (acc * 10 + (c - 48)) else None
+  end.
+Definition u8_of_string (s : list N) : option N :=
+  let d := match s with 43 :: r => r | _ => s end in
+  match d with
+  | [] => None
+  | _ => match dec_digits d 0 with Some v => if v <=? 255 then Some v else None | None => None end
+  end.
+
+(* str::rsplit_once('/') on the reversed string: (text before the last '/', text after it) *)
+Fixpoint take_until (sep : N) (l acc : list N) : option (list N * list N) :=
+  match l with
+  | [] => None
+  | c :: r => if c =? sep then Some (acc, r) else take_until sep r (c :: acc)
+  end.
+Definition rsplit_slash (s : list N) : option (list N * list N) :=
+  match take_until 47 (rev s) [] with
+  | Some (suffix, rev_prefix) => Some (rev rev_prefix, suffix)
+  | None => None
+  end.
+
+Definition ip_is_v4 (i : ipaddr) : bool := match i with IP4 _ => true | IP6 _ => false end.
+Definition ip_octets (i : ipaddr) : list N := match i with IP4 a => be32 a | IP6 a => to_bytes 16 a end.
+Definition ip_value (i : ipaddr) : N := match i with IP4 a | IP6 a => a end.
+
+Section Mup.
+  Variable v6p : N -> list N.
+  Variable v6r : list N -> option N.
+
+  (* parse_prefix: "<address>/<length>", the length within the address, no address octets beyond it *)
+  Definition parse_prefix (s : list N) : option (ipaddr * N) :=
+    match rsplit_slash s with
+    | None => None
+    | Some (a, l) =>
+        match ip_of_string v6r a, u8_of_string l with
+        | Some i, Some len =>
+            if ip_width i <? len then None
+            else if octets_ok (if ip_is_v4 i then 4 else 16) (ip_value i) len then Some (i, len) else None
+        | _, _ => None
+        end
+    end.
+
+  Definition mup_from_api (x : api_mup) : option mup :=
+    match x with
+    | AMupIsd d p =>
+        match rd_from_api d, parse_prefix p with
+        | Some d', Some (a, len) => Some (MupIsd d' a len)
+        | _, _ => None
+        end
+    | AMupDsd d s =>
+        match rd_from_api d, ip_of_string v6r s with
+        | Some d', Some a => Some (MupDsd d' a)
+        | _, _ => None
+        end
+    | AMupT1 d p teid qfi _ ep salen src =>
+        match rd_from_api d, parse_prefix p, ip_of_string v6r ep with
+        | Some d', Some (a, len), Some e =>
+            let source := if (salen =? 0) || Nat.eqb (length src) 0 then Some None
+                          else match ip_of_string v6r src with Some s => Some (Some s) | None => None end in
+            match source with
+            | Some s => if 255 <? qfi then None else Some (MupT1 d' a len teid qfi e s)
+            | None => None
+            end
+        | _, _, _ => None
+        end
+    | AMupT2 d ealen ep teid =>
+        match rd_from_api d, ip_of_string v6r ep with
+        | Some d', Some e =>
+            let w := ip_width e in
+            if (ealen <? w) || (w + 32 <? ealen) then None
+            else let k := (ealen - w + 7) / 8 in
+                 if (k <? 4) && negb ((teid * 256 ^ k) mod 4294967296 =? 0) then None
+                 else Some (MupT2 d' ealen e teid)
+        | _, _ => None
+        end
+    end.
+
+  Definition prefix_text (a : ipaddr) (len : N) : list N := ip_to_string v6p a ++ 47 :: dec_octet len.
+
+  Definition mup_to_api (n : mup) : api_mup :=
+    match n with
+    | MupIsd d a len => AMupIsd (rd_to_api d) (prefix_text a len)
+    | MupDsd d a => AMupDsd (rd_to_api d) (ip_to_string v6p a)
+    | MupT1 d a len teid qfi ep src =>
+        AMupT1 (rd_to_api d) (prefix_text a len) teid qfi (ip_width ep) (ip_to_string v6p ep)
+               (match src with Some s => ip_width s | None => 0 end)
+               (match src with Some s => ip_to_string v6p s | None => [] end)
+    | MupT2 d ealen ep teid => AMupT2 (rd_to_api d) ealen (ip_to_string v6p ep) teid
+    end.
+End Mup.
+
+(* nlri_matches_family, MUP arm: every address of the route is of the family's IP version *)
+Definition mup_family_ok (n : mup) (family : N) : bool :=
+  let v4 := family =? 65621 in
+  ((family =? 65621) || (family =? 131157)) &&
+  match n with
+  | MupIsd _ a _ => Bool.eqb (ip_is_v4 a) v4
+  | MupDsd _ a => Bool.eqb (ip_is_v4 a) v4
+  | MupT1 _ a _ _ _ ep src =>
+      Bool.eqb (ip_is_v4 a) v4 && Bool.eqb (ip_is_v4 ep) v4 && match src with Some s => Bool.eqb (ip_is_v4 s) v4 | None => true end
+  | MupT2 _ _ ep _ => Bool.eqb (ip_is_v4 ep) v4
+  end.
+
+(* MupNlri::encode: [architecture 1][route type: 2][length: 1][body] *)
+Definition prefix_octets (a : ipaddr) (len : N) : list N := firstn (N.to_nat ((len + 7) / 8)) (ip_octets a).
+Definition mup_body (n : mup) : list N :=
+  match n with
+  | MupIsd d a len => rd_bytes d ++ len :: prefix_octets a len
+  | MupDsd d a => rd_bytes d ++ ip_octets a
+  | MupT1 d a len teid qfi ep src =>
+      rd_bytes d ++ len :: prefix_octets a len ++ be32 teid ++ qfi :: ip_width ep :: ip_octets ep
+      ++ match src with Some s => ip_width s :: ip_octets s | None => [0] end
+  | MupT2 d ealen ep teid =>
+      rd_bytes d ++ ealen :: ip_octets ep ++ firstn (N.to_nat ((ealen - ip_width ep + 7) / 8)) (be32 teid)
+  end.
+Definition mup_route_type (n : mup) : N :=
+  match n with MupIsd _ _ _ => 1 | MupDsd _ _ => 2 | MupT1 _ _ _ _ _ _ _ => 3 | MupT2 _ _ _ _ => 4 end.
+Definition mup_encode (n : mup) : list N :=
+  1 :: be16 (mup_route_type n) ++ (N.of_nat (length (mup_body n)) mod 256) :: mup_body n.
+
+Definition v_api_mup (x : api_mup) : val :=
+  match x with
+  | AMupIsd d p => VL [VI 14; v_api_rd0 d; VNs p]
+  | AMupDsd d a => VL [VI 15; v_api_rd0 d; VNs a]
+  | AMupT1 d p teid qfi el ep sl src => VL [VI 16; v_api_rd0 d; VNs p; VN teid; VN qfi; VN el; VNs ep; VN sl; VNs src]
+  | AMupT2 d el ep teid => VL [VI 17; v_api_rd0 d; VN el; VNs ep; VN teid]
+  end.
+
+(* kind 8, MUP: [accepted; wire octets; decodes back; relisted; API form listed] *)
+Definition run_api_mup_case (family : N) (x : api_mup) : val :=
+  match mup_from_api v6_parse x with
+  | None => VL [VI 0]
+  | Some n =>
+      if negb (mup_family_ok n family) then VL [VI 0] else
+      let y := mup_to_api v6_print n in
+      VL [VI 1; VNs (mup_encode n); VI 1;
+          VI (match mup_from_api v6_parse y with Some n' => 0 | None => 2 end); v_api_mup y]
+  end.
